@@ -154,6 +154,9 @@ func unstable(first, later Visit) Visit {
 	return first
 }
 
+// errCause is the cause given to cause-carrying contexts (context.Cause(ctx)); it is never the context's error.
+var errCause = errors.New("shutting down (the caller's own cause)")
+
 var hookMu sync.Mutex
 
 // Run executes the case. It never panics; process-level failures are recorded in the Result.
@@ -343,13 +346,24 @@ func (env *Env) run(c *Case) *Result {
 		defer cancel()
 		cancel()
 	case "deadline":
-		ctx, cancel = context.WithDeadline(ctx, time.Now().Add(-time.Second))
+		if c.Cancel.K%2 == 1 {
+			// a context that carries a cause of the caller's own: the call must still return the context's error (ctx.Err())
+			ctx, cancel = context.WithDeadlineCause(ctx, time.Now().Add(-time.Second), errCause)
+		} else {
+			ctx, cancel = context.WithDeadline(ctx, time.Now().Add(-time.Second))
+		}
 	case "":
 		ctx, cancel = context.WithCancel(ctx)
 	default:
-		var cc context.CancelFunc
-		ctx, cc = context.WithCancel(ctx)
-		cancel = func() { cancelled.Store(true); cc() }
+		if c.Cancel.K%2 == 1 {
+			var ccc context.CancelCauseFunc
+			ctx, ccc = context.WithCancelCause(ctx)
+			cancel = func() { cancelled.Store(true); ccc(errCause) }
+		} else {
+			var cc context.CancelFunc
+			ctx, cc = context.WithCancel(ctx)
+			cancel = func() { cancelled.Store(true); cc() }
+		}
 	}
 	defer cancel()
 	if c.Cancel.Kind == "pre" {
